@@ -116,8 +116,10 @@ def observe_query(sc, traced=True):
         if log:
             # something observable happened before the first next(): not lazy
             out.append({"e": list(log), "s": ["C"]})
-        for _ in range(sc.get("nexts", 1)):
+        for i in range(sc.get("nexts", 1)):
             del log[:]
+            if sc.get("reiter_at") == i:
+                it = iter(it)       # MatchTraverser.__iter__: starts the search over
             try:
                 r = next(it)
                 sig = ["R", node_full(r)] if api == "find_matches" else ["V", enc(r)]
